@@ -81,6 +81,13 @@ class PathEval:
         st, rest = stmts[0], stmts[1:]
         if isinstance(st, ast.Expr) and isinstance(st.value, ast.Constant):
             return self._block(rest, env, cond)
+        if isinstance(st, ast.Expr) and isinstance(st.value, ast.Yield) and st.value.value is not None:
+            # a generator: every yielded value is a result; the path goes on
+            for c2, v in self._expr(st.value.value, env, cond):
+                self.results.append((c2, v))
+            return self._block(rest, env, cond)
+        if isinstance(st, ast.Expr) and isinstance(st.value, ast.Call):
+            return self._block(rest, env, cond)  # a call for its effect (warnings.warn, logging): no value
         if isinstance(st, ast.Assign) and len(st.targets) == 1 and isinstance(st.targets[0], ast.Name):
             for c2, v in self._expr(st.value, env, cond):
                 e2 = dict(env)
